@@ -10,7 +10,9 @@ driver needs them.)
 -/
 namespace Carquet.Impl.Writer
 
-/-- content of a column (of a row group, of a page, of a batch) -/
+/-- content of a column (of a row group, of a page, of a batch).  `rows` counts level ENTRIES
+(`num_values`): the rows of a REQUIRED / OPTIONAL column; for a REPEATED column the rows are the
+entries with repetition level 0 (`ColData.recs`). -/
 structure ColData where
   rows : Nat := 0
   defs : List Nat := []
@@ -21,13 +23,26 @@ structure ColData where
 def ColData.append (a b : ColData) : ColData :=
   ⟨a.rows + b.rows, a.defs ++ b.defs, a.reps ++ b.reps, a.vals ++ b.vals⟩
 
+/-- number of rows (records) of a column's content: every entry of a non-repeated column is a row;
+in a REPEATED column a row starts at each entry with repetition level 0 -/
+def ColData.recs (maxRep : Nat) (d : ColData) : Nat :=
+  if maxRep = 0 then d.rows else (d.reps.filter (· == 0)).length
+
+/-- rows of the first column of a row group's content (0 for a schema without columns): its
+entries, or — REPEATED — its entries with repetition level 0.  This is the `num_rows` the writer
+gives the row group. -/
+def firstRecs (cols : List Col) (g : List ColData) : Nat :=
+  (List.zipWith (fun (c : Col) (d : ColData) => d.recs c.maxRep) cols g).headD 0
+
 /-- what one accepted `write_batch` call contributes to its column (`add_values`) -/
 def batchData (c : Col) (b : Batch) : ColData :=
   { rows := b.nrows,
     defs := if c.maxDef > 0 then (match b.defs with
                                   | some ds => ds
                                   | none => List.replicate b.nrows c.maxDef) else [],
-    reps := if c.maxRep > 0 then List.replicate b.nrows 0 else [],
+    reps := if c.maxRep > 0 then (match b.reps with
+                                  | some rs => rs
+                                  | none => List.replicate b.nrows 0) else [],
     vals := b.vals }
 
 /-- abstract writer state: finished row groups and the open one -/
